@@ -259,6 +259,16 @@ func (g *G) Program(budget int) []Stmt {
 	return prog
 }
 
+// maybeEmpty turns a block size into 0 now and then: empty blocks are legal
+// everywhere and "nothing to run" must not change which branch is taken
+func (g *G) maybeEmpty(n int) int {
+	if g.R.Intn(9) == 0 {
+		g.feat("empty-block")
+		return 0
+	}
+	return n
+}
+
 func (g *G) block(c ctx, n int) []Stmt {
 	var ss []Stmt
 	for i := 0; i < n && g.budget > 0; i++ {
@@ -373,6 +383,23 @@ func (g *G) assign() []Stmt {
 }
 
 func (g *G) varStmt() []Stmt {
+	if g.R.Intn(6) == 0 {
+		// var a, b = <one list value>: both names are bound in the current block
+		n1, n2 := g.pick(g.pool), g.pick(g.pool)
+		if n1 != n2 {
+			g.feat("var-destructure")
+			if g.isDefined(n1) || g.isDefined(n2) {
+				g.feat("shadow")
+			}
+			var rhs Expr = &ListLit{Elems: []Expr{g.IntExpr(1), g.IntExpr(1)}}
+			if g.R.Intn(2) == 0 {
+				rhs = &Call{Callee: &FuncLit{Body: []Stmt{&Return{Exprs: []Expr{g.IntExpr(1), g.IntExpr(1)}}}}}
+			}
+			g.markDefined(n1)
+			g.markDefined(n2)
+			return []Stmt{&VarStmt{Names: []string{n1, n2}, Exprs: []Expr{rhs}}}
+		}
+	}
 	n := g.pick(g.pool)
 	e := g.IntExpr(2)
 	if g.isDefined(n) {
@@ -401,20 +428,32 @@ func (g *G) inner(c ctx) ctx {
 	return c
 }
 
+// failingHeader: now and then the controlling expression of a block construct fails
+func (g *G) failingHeader() bool {
+	if g.R.Intn(14) == 0 {
+		g.feat("failing-header")
+		return true
+	}
+	return false
+}
+
 func (g *G) ifStmt(c ctx) []Stmt {
 	g.feat("if")
 	s := &If{Cond: g.CondExpr(2)}
-	s.Then = g.scoped(func() []Stmt { return g.block(g.inner(c), 1+g.R.Intn(3)) })
+	if g.failingHeader() {
+		s.Cond = &Binary{Op: "<", L: g.failExpr(), R: &IntLit{V: 1}}
+	}
+	s.Then = g.scoped(func() []Stmt { return g.block(g.inner(c), g.maybeEmpty(1+g.R.Intn(3))) })
 	for n := g.R.Intn(3); n > 0; n-- {
 		g.feat("else-if")
 		ei := ElseIf{Cond: g.CondExpr(1)}
-		ei.Body = g.scoped(func() []Stmt { return g.block(g.inner(c), 1+g.R.Intn(2)) })
+		ei.Body = g.scoped(func() []Stmt { return g.block(g.inner(c), g.maybeEmpty(1+g.R.Intn(2))) })
 		s.ElseIfs = append(s.ElseIfs, ei)
 	}
 	if g.R.Intn(2) == 0 {
 		g.feat("else")
 		s.HasElse = true
-		s.Else = g.scoped(func() []Stmt { return g.block(g.inner(c), 1+g.R.Intn(2)) })
+		s.Else = g.scoped(func() []Stmt { return g.block(g.inner(c), g.maybeEmpty(1+g.R.Intn(2))) })
 	}
 	return []Stmt{s}
 }
@@ -444,7 +483,11 @@ func (g *G) loop(c ctx) []Stmt {
 		body = append(body, &ExprStmt{X: &OpAssign{Target: &Name{N: cnt}, Op: "+"}})
 		body = append(body, g.scoped(func() []Stmt { return g.block(lc, 1+g.R.Intn(3)) })...)
 		cond := Expr(&Binary{Op: "<", L: &Name{N: cnt}, R: &IntLit{V: n}})
-		if g.R.Intn(2) == 0 {
+		if g.failingHeader() || g.R.Intn(8) == 0 {
+			// the condition fails (modulo by zero) on the evaluation after n iterations
+			g.feat("loop-cond-fails-later")
+			cond = &Binary{Op: ">=", L: &Binary{Op: "%", L: &IntLit{V: 1}, R: &Binary{Op: "-", L: &IntLit{V: n}, R: &Name{N: cnt}}}, R: &IntLit{V: 0}}
+		} else if g.R.Intn(2) == 0 {
 			// condition with a side effect: the number of evaluations becomes visible
 			cond = &Logic{Op: "&&", L: &Binary{Op: ">", L: g.p(), R: &IntLit{V: 0}}, R: cond}
 		}
@@ -458,6 +501,10 @@ func (g *G) loop(c ctx) []Stmt {
 			s.Init = &Assign{LHS: []Expr{&Name{N: cnt}}, RHS: []Expr{&IntLit{V: 0}}}
 		}
 		s.Cond = &Binary{Op: "<", L: &Name{N: cnt}, R: &IntLit{V: n}}
+		if g.R.Intn(10) == 0 {
+			g.feat("loop-cond-fails-later")
+			s.Cond = &Binary{Op: ">=", L: &Binary{Op: "%", L: &IntLit{V: 1}, R: &Binary{Op: "-", L: &IntLit{V: n}, R: &Name{N: cnt}}}, R: &IntLit{V: 0}}
+		}
 		if g.R.Intn(2) == 0 {
 			// probing post expression: "post runs after continue" is visible
 			s.Post = &OpAssign{Target: &Name{N: cnt}, Op: "+", R: &Binary{Op: "-", L: g.p(), R: &IntLit{V: int64(g.k) - 1}}}
@@ -474,6 +521,9 @@ func (g *G) loop(c ctx) []Stmt {
 			l.Elems = append(l.Elems, &IntLit{V: int64(10 + g.R.Intn(5))})
 		}
 		s := &ForIn{Vars: []string{v}, X: l}
+		if g.failingHeader() {
+			s.X = g.failExpr()
+		}
 		s.Body = g.scoped(func() []Stmt {
 			g.markDefined(v)
 			return g.block(lc, 1+g.R.Intn(3))
@@ -508,6 +558,9 @@ func (g *G) mapIter(c ctx) []Stmt {
 func (g *G) switchStmt(c ctx) []Stmt {
 	g.feat("switch")
 	s := &Switch{X: g.IntExpr(1)}
+	if g.failingHeader() {
+		s.X = g.failExpr()
+	}
 	nc := g.R.Intn(4)
 	ic := g.inner(c)
 	for i := 0; i < nc; i++ {
@@ -518,7 +571,7 @@ func (g *G) switchStmt(c ctx) []Stmt {
 		if len(cs.Exprs) > 1 {
 			g.feat("switch-multi-case")
 		}
-		cs.Body = g.scoped(func() []Stmt { return g.block(ic, 1+g.R.Intn(2)) })
+		cs.Body = g.scoped(func() []Stmt { return g.block(ic, g.maybeEmpty(1+g.R.Intn(2))) })
 		s.Cases = append(s.Cases, cs)
 	}
 	if g.R.Intn(3) != 0 {
@@ -527,7 +580,7 @@ func (g *G) switchStmt(c ctx) []Stmt {
 		if s.DefaultPos < nc {
 			g.feat("switch-default-not-last")
 		}
-		s.Default = g.scoped(func() []Stmt { return g.block(ic, 1+g.R.Intn(2)) })
+		s.Default = g.scoped(func() []Stmt { return g.block(ic, g.maybeEmpty(1+g.R.Intn(2))) })
 	}
 	return []Stmt{s}
 }
@@ -538,24 +591,37 @@ func (g *G) tryStmt(c ctx) []Stmt {
 	tc := g.inner(c)
 	tc.tryBrk = true
 	tc.tryRet = true
-	s.Body = g.scoped(func() []Stmt { return g.block(tc, 1+g.R.Intn(3)) })
+	s.Body = g.scoped(func() []Stmt { return g.block(tc, g.maybeEmpty(1+g.R.Intn(3))) })
 	cc := g.inner(c)
 	if g.R.Intn(3) != 0 {
 		s.CatchVar = "e"
 	}
 	s.Catch = g.scoped(func() []Stmt {
 		var ss []Stmt
+		if g.R.Intn(10) == 0 {
+			g.feat("empty-catch")
+			return nil
+		}
 		if s.CatchVar != "" {
 			ss = append(ss, &ExprStmt{X: &Call{Fn: "pc", Args: []Expr{&Name{N: "e"}}}})
 		} else {
 			ss = append(ss, &ExprStmt{X: g.p()})
+		}
+		if g.Prof == ProfScope || g.R.Intn(3) == 0 {
+			ss = append(ss, g.ReadBacks()...)
 		}
 		return append(ss, g.block(cc, g.R.Intn(3))...)
 	})
 	if g.R.Intn(2) == 0 {
 		g.feat("finally")
 		s.HasFinally = true
-		s.Finally = g.scoped(func() []Stmt { return append([]Stmt{&ExprStmt{X: g.p()}}, g.block(cc, g.R.Intn(2))...) })
+		s.Finally = g.scoped(func() []Stmt {
+			ss := []Stmt{&ExprStmt{X: g.p()}}
+			if g.Prof == ProfScope || g.R.Intn(3) == 0 {
+				ss = append(ss, g.ReadBacks()...)
+			}
+			return append(ss, g.block(cc, g.R.Intn(2))...)
+		})
 	}
 	return []Stmt{s}
 }
@@ -583,20 +649,20 @@ func (g *G) funcDef(c ctx) []Stmt {
 		g.feat("func-many-params")
 	}
 	f := &FuncLit{Name: name}
+	if np > 0 && g.R.Intn(5) == 0 {
+		f.Variadic = true
+		g.feat("func-variadic")
+	}
 	params := []string{}
 	for i := 0; i < np; i++ {
-		// parameters shadow pool names half of the time
-		if i < len(g.pool) && g.R.Intn(2) == 0 {
+		// parameters shadow pool names half of the time (never the variadic tail, which holds a list)
+		if i < len(g.pool) && g.R.Intn(2) == 0 && !(f.Variadic && i == np-1) {
 			params = append(params, g.pool[i])
 		} else {
 			params = append(params, "q"+strconv.Itoa(i))
 		}
 	}
 	f.Params = params
-	if np > 0 && g.R.Intn(5) == 0 {
-		f.Variadic = true
-		g.feat("func-variadic")
-	}
 	recursive := g.R.Intn(4) == 0 && np >= 1 && !f.Variadic
 	info := fnInfo{name: name, nparams: np, variadic: f.Variadic}
 	fc := ctx{depth: c.depth + 1, inFunc: true}
@@ -669,7 +735,62 @@ func isAbrupt(s Stmt) bool {
 }
 
 // closureStmt: counter factories and closures that observe later changes of captured names.
+// lateBinding: a closure created in a nested block of a (parameterless) function
+// before the function scope gets the binding the closure reads or writes
+func (g *G) lateBinding() []Stmt {
+	g.feat("closure-late-binding")
+	fn, cl := g.fresh("lb"), g.fresh("lc")
+	n := g.pick(g.pool)
+	inner := &FuncLit{Body: []Stmt{&Return{Exprs: []Expr{&Coalesce{L: &Name{N: n}, R: &IntLit{V: -7}}}}}}
+	if g.R.Intn(2) == 0 {
+		inner = &FuncLit{Body: []Stmt{
+			&Assign{LHS: []Expr{&Name{N: n}}, RHS: []Expr{&Binary{Op: "+", L: &Coalesce{L: &Name{N: n}, R: &IntLit{V: 0}}, R: &IntLit{V: 1}}}},
+			&Return{Exprs: []Expr{&Name{N: n}}}}}
+	}
+	mk := Stmt(&Assign{LHS: []Expr{&Name{N: cl}}, RHS: []Expr{inner}})
+	var nest Stmt
+	switch g.R.Intn(4) {
+	case 0:
+		nest = &If{Cond: &BoolLit{V: true}, Then: []Stmt{mk}}
+	case 1:
+		nest = &ForIn{Vars: []string{"it"}, X: &ListLit{Elems: []Expr{&IntLit{V: 1}}}, Body: []Stmt{mk}}
+	case 2:
+		nest = &Switch{X: &IntLit{V: 1}, Cases: []Case{{Exprs: []Expr{&IntLit{V: 1}}, Body: []Stmt{mk}}}}
+	default:
+		nest = &Try{Body: []Stmt{mk}, Catch: []Stmt{&ExprStmt{X: g.p()}}}
+	}
+	var bind Stmt = &VarStmt{Names: []string{n}, Exprs: []Expr{&IntLit{V: int64(40 + g.R.Intn(9))}}}
+	if g.R.Intn(3) == 0 {
+		bind = &Assign{LHS: []Expr{&Name{N: n}}, RHS: []Expr{&IntLit{V: int64(40 + g.R.Intn(9))}}}
+	}
+	params := []string{}
+	if g.R.Intn(3) == 0 {
+		params = []string{"q0"}
+	}
+	// the holder of the closure lives outside the function, so that the function's
+	// own scope holds nothing before the late binding
+	holderOutside := g.R.Intn(4) != 0
+	body := []Stmt{nest, bind,
+		&ExprStmt{X: &Call{Fn: "rd", Args: []Expr{&StrLit{V: "late"}, &Call{Fn: cl}}}},
+		&ExprStmt{X: &Call{Fn: "rd", Args: []Expr{&StrLit{V: n}, &Coalesce{L: &Name{N: n}, R: &StrLit{V: "<undef>"}}}}},
+		&Return{Exprs: []Expr{&Call{Fn: cl}}}}
+	args := []Expr{}
+	if len(params) > 0 {
+		args = append(args, &IntLit{V: 3})
+	}
+	if !holderOutside {
+		body = append([]Stmt{&VarStmt{Names: []string{cl}, Exprs: []Expr{&NilLit{}}}}, body...)
+	}
+	return []Stmt{&Assign{LHS: []Expr{&Name{N: cl}}, RHS: []Expr{&NilLit{}}},
+		&ExprStmt{X: &FuncLit{Name: fn, Params: params, Body: body}},
+		&ExprStmt{X: &Call{Fn: "rd", Args: []Expr{&StrLit{V: fn}, &Call{Fn: fn, Args: args}}}},
+		&ExprStmt{X: &Call{Fn: "rd", Args: []Expr{&StrLit{V: n}, &Coalesce{L: &Name{N: n}, R: &StrLit{V: "<undef>"}}}}}}
+}
+
 func (g *G) closureStmt(c ctx) []Stmt {
+	if g.R.Intn(3) == 0 {
+		return g.lateBinding()
+	}
 	switch g.R.Intn(3) {
 	case 0:
 		g.feat("closure-factory")
@@ -741,8 +862,49 @@ func (g *G) moduleStmt(c ctx) []Stmt {
 	}
 }
 
+// deferElement: the argument is a list element that is overwritten after the
+// defer statement — the deferred call must see the value at the defer statement,
+// whatever kind of callee it is
+func (g *G) deferElement() []Stmt {
+	g.feat("defer-element-snapshot")
+	l := g.fresh("dl")
+	id := g.probeID()
+	var call *Call
+	var pre []Stmt
+	switch g.R.Intn(5) {
+	case 0:
+		call = &Call{Fn: "h2", Args: []Expr{&IntLit{V: id}, &Index{X: &Name{N: l}, I: &IntLit{V: 0}}}}
+	case 1:
+		call = &Call{Fn: "hv", Args: []Expr{&IntLit{V: id}, &Index{X: &Name{N: l}, I: &IntLit{V: 0}}, &Index{X: &Name{N: l}, I: &IntLit{V: 1}}}}
+	case 2:
+		fn := g.fresh("df")
+		pre = append(pre, &ExprStmt{X: &FuncLit{Name: fn, Params: []string{"q0", "q1"}, Body: []Stmt{
+			&Return{Exprs: []Expr{&Call{Fn: "h2", Args: []Expr{&Name{N: "q0"}, &Name{N: "q1"}}}}}}}})
+		call = &Call{Fn: fn, Args: []Expr{&IntLit{V: id}, &Index{X: &Name{N: l}, I: &IntLit{V: 0}}}}
+	case 3:
+		fn := g.fresh("dv")
+		pre = append(pre, &ExprStmt{X: &FuncLit{Name: fn, Params: []string{"q0", "rest"}, Variadic: true, Body: []Stmt{
+			&Return{Exprs: []Expr{&Call{Fn: "h2", Args: []Expr{&Name{N: "q0"}, &Name{N: "rest"}}}}}}}})
+		call = &Call{Fn: fn, Args: []Expr{&IntLit{V: id}, &Index{X: &Name{N: l}, I: &IntLit{V: 0}}, &Index{X: &Name{N: l}, I: &IntLit{V: 1}}}}
+	default:
+		fn := g.fresh("dw")
+		pre = append(pre, &ExprStmt{X: &FuncLit{Name: fn, Params: []string{"rest"}, Variadic: true, Body: []Stmt{
+			&Return{Exprs: []Expr{&Call{Fn: "h2", Args: []Expr{&IntLit{V: id}, &Name{N: "rest"}}}}}}}})
+		call = &Call{Fn: fn, Args: []Expr{&Index{X: &Name{N: l}, I: &IntLit{V: 1}}}}
+	}
+	out := []Stmt{&Assign{LHS: []Expr{&Name{N: l}}, RHS: []Expr{&ListLit{Elems: []Expr{&IntLit{V: 11}, &IntLit{V: 22}}}}}}
+	out = append(out, pre...)
+	out = append(out, &Defer{C: call},
+		&Assign{LHS: []Expr{&Index{X: &Name{N: l}, I: &IntLit{V: 0}}}, RHS: []Expr{&IntLit{V: 77}}},
+		&Assign{LHS: []Expr{&Index{X: &Name{N: l}, I: &IntLit{V: 1}}}, RHS: []Expr{&IntLit{V: 88}}})
+	return out
+}
+
 func (g *G) deferStmt(c ctx) []Stmt {
 	g.feat("defer")
+	if g.R.Intn(6) == 0 {
+		return g.deferElement()
+	}
 	switch g.R.Intn(7) {
 	case 0, 1:
 		return []Stmt{&Defer{C: &Call{Fn: "h1", Args: []Expr{&IntLit{V: g.probeID()}}}}}
